@@ -97,6 +97,8 @@ def _parse(q):
         if suffix in ('::iterator', '::const_iterator', '::reverse_iterator'):
             cont = parse(s[:-len(suffix)])
             return T('iter', None, (cont,), ref, const, raw)
+        if suffix in ('::element_type',) and base.startswith(('std::__shared_ptr', 'std::shared_ptr', 'std::unique_ptr')):
+            it = parse(args[0]); return T(it.kind, it.name, it.args, ref, const, raw)
         if suffix in ('::size_type',): return T('int', 'unsigned long', (), ref, const, raw)
         if suffix in ('::difference_type',): return T('int', 'long', (), ref, const, raw)
         if suffix in ('::value_type', '::reference', '::const_reference'):
@@ -116,8 +118,8 @@ def _parse(q):
         if base == 'std::pair': return T('pair', None, (parse(args[0]), parse(args[1])), ref, const, raw)
         if base == 'std::tuple': return T('tuple', None, tuple(parse(a) for a in args), ref, const, raw)
         if base == 'std::optional': return T('optional', None, (parse(args[0]),), ref, const, raw)
-        if base in ('std::shared_ptr', 'std::unique_ptr', 'std::weak_ptr', 'std::__shared_ptr'):
-            return T('ptr', base, (parse(args[0]).noref(),), ref, const, raw)
+        if base in ('std::shared_ptr', 'std::unique_ptr', 'std::weak_ptr', 'std::__shared_ptr', 'std::__shared_ptr_access'):
+            return T('ptr', 'std::unique_ptr' if base == 'std::unique_ptr' else 'std::shared_ptr', (parse(args[0]).noref(),), ref, const, raw)
         if base == 'std::forward_list': return T('flist', None, (parse(args[0]),), ref, const, raw)
         if base == 'std::list': return T('list', None, (parse(args[0]),), ref, const, raw)
         if base in ('std::set', 'std::unordered_set'): return T('set', base, (parse(args[0]),), ref, const, raw)
